@@ -48,8 +48,11 @@ def prop_files(prop):
     """BU/Properties/<prop>.lean and its continuation modules BU/Properties/<prop>_*.lean"""
     d = os.path.join(C.LEAN, 'BU', 'Properties')
     # a continuation module still under construction (contains `sorry`) is not yet part of the claim
-    cont = [f for f in sorted(glob.glob(os.path.join(d, prop + '_*.lean')))
-            if not re.search(r'\bsorry\b', strip_comments(open(f).read()))]
+    def finished(f):
+        # ... in the module itself or in anything of the project it imports
+        rel = os.path.relpath(f, C.LEAN)
+        return not any(re.search(r'\bsorry\b', strip_comments(open(os.path.join(C.LEAN, g)).read())) for g in lean_deps([rel]))
+    cont = [f for f in sorted(glob.glob(os.path.join(d, prop + '_*.lean'))) if finished(f)]
     return [os.path.join(d, prop + '.lean')] + cont
 
 
